@@ -2,6 +2,9 @@
 """Regenerates MANIFEST.json from the table below (kept in one place so it stays valid)."""
 import json, subprocess
 CHECKS = {
+ "C11": dict(level="exploration", tech="independent reference metric (sha2 SHA-256 + big-endian XOR) compared with every closeness decision of the real code: distance conversion, peer sorting, range filters, closest-peer selection, replication candidates / close group / closest-K through a real driver with a filled routing table, store range counts and farthest record incl. after a real restart",
+             text="Random and constructed address pairs of all six kinds (equal, typed vs raw-key, hashes sharing leading bytes) and peer sets of 0..K+1 are run through the real functions and compared with the integer metric; every 4th case builds a real node driver + store.",
+             note="sha2 trusted; boundary distance == range not judged; 'too few known' read against the documented API (sort_peers errs below CLOSE_GROUP_SIZE).", ref="DESIGN.md §4 C11"),
  "C10": dict(level="exploration", tech="step-wise reference-model oracle on a real node store with small capacity: gate-controlled acknowledgements, index/distance-index snapshots through guarded hooks, independent SHA-256/XOR metric, quote inspection via the real GetLocalQuotingMetrics handler",
              text="Random histories of puts at chosen distances, bursts of unacknowledged writes, overwrites, range updates, clean-ups, payments and quiesced restarts; every put decision at capacity, every eviction, every refusal, the retained count after every step, the quoted figures and the index invariants at quiescent points are judged. Two structural defects are recorded as known findings with fine-grained signatures.",
              note="Capacity decisions judged only with nothing in flight; overshoot is classified as the known finding only up to the number of puts the harness saw accepted while logically full.", ref="DESIGN.md §4 C10"),
